@@ -379,7 +379,7 @@ def run_check(prop: str, tier: str, base_seed: int) -> int:
     workdir = os.path.join(base, f"pynenc-verif-drv-{os.getpid()}")
     os.makedirs(workdir, exist_ok=True)
     try:
-        results, errors, skipped = run_items(prop, items, workdir, deadline)
+        results, errors, skipped = run_items(prop, items, workdir, deadline, per_chunk_timeout=900 if tier == "quick" else 2700)
         rc = finish(prop, tier, base_seed, mod, plan, results, errors, skipped, workdir, t_start)
     finally:
         import shutil
